@@ -551,6 +551,14 @@ func (e *Engine) reify(st *State, v Val, t types.Type) T {
 		if x.Off.S != "0" {
 			panic("reify: slice with non-zero offset")
 		}
+		// eta: the slice made of the array and the length of one slice term is that term (keeps spec functions over
+		// slices syntactically connected across loop cuts)
+		if pre := "(arr_" + so + " "; strings.HasPrefix(arr.S, pre) && strings.HasSuffix(arr.S, ")") {
+			inner := arr.S[len(pre) : len(arr.S)-1]
+			if x.Len.S == "(len_"+so+" "+inner+")" {
+				return T{S: inner, So: so}
+			}
+		}
 		return T{S: fmt.Sprintf("(mk_%s %s %s)", so, arr.S, x.Len.S), So: so}
 	case *ArrV:
 		if so == SString {
